@@ -816,6 +816,15 @@ class Phase(Angle):
                 corr = Phase.from_angles(*d_parts, factor=fd, out=corr)
                 remainder = np.subtract(dividend, corr, out=corr)
 
+            # The estimates above use single doubles, so a remainder within
+            # rounding of the divisor can be taken for a full extra multiple.
+            # A remainder with the sign opposite to the divisor's shows that.
+            over = np.sign(remainder.cycle.value) * np.sign(getattr(divisor, "value", divisor)) < 0
+            if np.any(over):
+                fd -= over
+                corr = Phase.from_angles(*d_parts, factor=fd, out=corr)
+                remainder = np.subtract(dividend, corr, out=corr)
+
             if function is np.floor_divide:
                 return fd
             elif function is np.remainder:
